@@ -100,6 +100,8 @@ PoolC01 == <<
   [W("/ab/a") EXCEPT !.important = TRUE, !.badfilter = TRUE],
   [W("ab/ba") EXCEPT !.exc = TRUE, !.badfilter = TRUE],
   [W("ab") EXCEPT !.left = "dpipe", !.body = B("ab.ba^"), !.mkind = "redirect", !.mval = "r1"],
+  \* ... and its badfilter twin: a cancelled redirect rule neither blocks nor redirects
+  [W("ab") EXCEPT !.left = "dpipe", !.body = B("ab.ba^"), !.mkind = "redirect", !.mval = "r1", !.badfilter = TRUE],
   [W("/bab") EXCEPT !.mkind = "redirect-rule", !.mval = "r2"],
   [W("ab") EXCEPT !.mkind = "removeparam", !.mval = "ab"],
   [W("ab.ba^") EXCEPT !.left = "dpipe", !.mkind = "csp", !.mval = "d1"],
@@ -231,6 +233,8 @@ PoolC05 == <<
   [W("/ab-") EXCEPT !.dom = {"ba.com"}], [W("ab.ba/ab_") EXCEPT !.left = "dpipe"],
   [W("/ab-") EXCEPT !.mkind = "redirect", !.mval = "r1"], [W("/ab_") EXCEPT !.mkind = "redirect-rule", !.mval = "r2"],
   [W("/ab_") EXCEPT !.mkind = "removeparam", !.mval = "ab"], [W("/ab-") EXCEPT !.mkind = "removeparam", !.mval = "ba"],
+  \* csp rules that are neither hostname anchored nor restricted to sites: never fused (each keeps its directive)
+  [W("/ab_") EXCEPT !.mkind = "csp", !.mval = "d1"], [W("/ab-") EXCEPT !.mkind = "csp", !.mval = "d2"],
   \* pattern-less catch-all rules next to token-less patterned rules with the same option mask (all of them
   \* live in the fallback bucket; a fused group with a match-all member must still match everything)
   \* wildcard rules pinned on the right, sharing bucket and mask (fused into one regex set: every member keeps its
@@ -250,7 +254,9 @@ ReqsC05 == <<
   MkReq("https", "x.com", "/x-", "image", "ba.com"),
   MkReq("https", "x.com", "/x-", "font", "ba.com"),
   MkReq("https", "x.com", "/a-b", "font", "x.com"),
-  MkReq("https", "ab.ba", "/ab_x-y", "script", "x.com")
+  MkReq("https", "ab.ba", "/ab_x-y", "script", "x.com"),
+  MkReq("https", "ab.ba", "/ab_", "document", "ab.ba"),
+  MkReq("https", "ab.ba", "/ab-", "document", "ab.ba")
 >>
 
 --------------------------------------------------------------------------
